@@ -30,7 +30,7 @@ DECLARED = {
         ("subscript-store", "population_proportions[:, self.diff_column_idxs] = np.nan", "same fresh array"),
     ],
     "cubepart:_Strand.population_proportions": [
-        ("subscript-store", "population_proportions[self.diff_row_idxs] = np.nan", "writes into the array freshly produced by _assemble_vector"),
+        ("subscript-store", "population_proportions[list(self.diff_row_idxs)] = np.nan", "writes into the float copy (.astype) of the array freshly produced by _assemble_vector"),
     ],
     # declared mutators of caller-supplied objects: decided by the history enumeration
     "dimension:_ElementIdShim.shimmed_dimension_dict": [
